@@ -118,12 +118,14 @@ fn check(s: &Shape, r: &mut Report) {
     let size = pos.iter().map(|p| len(*p)).fold(0.0, f64::max).max(1e-9);
     // unit normals
     for (i, n) in nrm.iter().enumerate() {
-        if !((len(*n) - 1.0).abs() <= 1e-3) { r.violation(key("normal-length"), format!("vertex {i} normal {n:?} has length {}", len(*n)), case()); return; }
+        r.margin("normal-length", (len(*n) - 1.0).abs(), 1e-4);
+        if !((len(*n) - 1.0).abs() <= 1e-4) { r.violation(key("normal-length"), format!("vertex {i} normal {n:?} has length {}", len(*n)), case()); return; }
     }
     // surface equation
     for (i, p) in pos.iter().enumerate() {
         // residuals are relative to the radius parameter; f32 coordinates carry an error of ~1 ulp of the mesh extent
         let rmin = match *s { Shape::Sphere { r, .. } | Shape::Cyl { r, .. } | Shape::Capsule { r, .. } => r as f64, Shape::Torus { rmin, .. } => rmin as f64, Shape::Cone { rb, ra, .. } => rb.max(ra) as f64, _ => size };
+        if let Some(e) = on_surface(s, *p) { r.margin("surface", e, 1e-4 + 8.0 * f32::EPSILON as f64 * size / rmin.max(1e-30)); }
         if let Some(e) = on_surface(s, *p) { if !(e <= 1e-4 + 8.0 * f32::EPSILON as f64 * size / rmin.max(1e-30)) { r.violation(key("off-surface"), format!("vertex {i} at {p:?}: surface residual {e:.3e}"), case()); return; } }
     }
     // merge coincident vertices
